@@ -135,6 +135,15 @@ func staleImports(world *sim.WorldSpec, out []byte) []byte {
 	return alt
 }
 
+func hasSiblingGoFiles(w *sim.WorldSpec) bool {
+	for p := range w.Files {
+		if p != w.Setup && filepath.Dir(p) == filepath.Dir(w.Setup) && strings.HasSuffix(p, ".go") {
+			return true
+		}
+	}
+	return false
+}
+
 func pickK(r *sim.Rng, L int) int {
 	if L <= 0 {
 		return 0
@@ -201,6 +210,9 @@ func genC12(cfg Config, ws *WorldSet, i int) C12Case {
 		case 2:
 			if len(world.Variants) > 0 {
 				v := r.Intn(len(world.Variants) + 1)
+				if v == 4 && hasSiblingGoFiles(world) {
+					v = 1 // renaming the package needs every file of the package renamed
+				}
 				data := world.Files[world.Setup]
 				if v > 0 {
 					data = world.Variants[v-1]
@@ -209,16 +221,10 @@ func genC12(cfg Config, ws *WorldSet, i int) C12Case {
 			}
 		case 3, 4:
 			// a run killed inside its final write
-			kind := sim.Pick(r, []string{"crash_mid", "crash_mid", "crash_mid", "crash_after_open", "crash_before_close", "crash_before_open"})
+			kind := sim.Pick(r, []string{"crash_mid", "crash_mid", "crash_mid", "crash_after_open", "crash_before_close", "crash_before_open", "commit:crash_before", "commit:crash_after"})
 			iv := mkInv()
 			iv.Dry = false
-			s := Step{Op: "crashrun", Inv: iv, Bin: "sim", Plan: &sim.Plan{Markers: genMarkers(r, 4),
-				Faults: []sim.Fault{{Op: "OUTPUT-OPEN", Path: iv.OutPath, Kind: kind, K: pickK(r, L)}, {Op: "OUTPUT-COMMIT", Path: iv.OutPath, Kind: sim.Pick(r, []string{"crash_before", "crash_after"})}}},
-				Note: sim.Pick(r, []string{"as-written", "as-written", "zero-filled-tail", "cut-to-4096", "write-lost"})}
-			if kind == "crash_before_close" {
-				s.Plan.Faults[0].K = -1
-			}
-			steps = append(steps, s)
+			steps = append(steps, crashStep(r, iv, kind, pickK(r, L), sim.Pick(r, []string{"as-written", "as-written", "zero-filled-tail", "cut-to-4096", "write-lost"})))
 		case 5:
 			steps = append(steps, Step{Op: "truncate", Path: outPath, K: pickK(r, L), Note: "truncation"})
 		case 6:
@@ -242,6 +248,54 @@ func genC12(cfg Config, ws *WorldSet, i int) C12Case {
 	// the history always ends with the repairing run
 	steps = append(steps, runStep())
 	return C12Case{World: world, Steps: steps, Mode: "history"}
+}
+
+// crashStep builds a run that is killed at one point of its final write: inside
+// whatever opens the output (or a temporary sibling) for writing, or around
+// whatever moves a file onto the output path.
+func crashStep(r *sim.Rng, iv *Invocation, kind string, k int, durability string) Step {
+	f := sim.Fault{Op: "OUTPUT-OPEN", Path: iv.OutPath, Kind: kind, K: k}
+	if strings.HasPrefix(kind, "commit:") {
+		f = sim.Fault{Op: "OUTPUT-COMMIT", Path: iv.OutPath, Kind: strings.TrimPrefix(kind, "commit:")}
+		durability = "as-written"
+	}
+	if kind == "crash_before_close" {
+		f.K = -1
+	}
+	return Step{Op: "crashrun", Inv: iv, Bin: "sim", Plan: &sim.Plan{Markers: genMarkers(r, 4), Faults: []sim.Fault{f}}, Note: durability}
+}
+
+var c12CrashKinds = []string{"crash_before_open", "crash_after_open", "crash_mid", "crash_before_close", "commit:crash_before", "commit:crash_after"}
+
+// genC12Recovery: the crash-recovery templates, systematically for every crash
+// kind: [crash, run] and [edit to a longer setup, crash, edit back to the shorter
+// one, run] - an interrupted run must be repaired by simply running again, also
+// when the next result is shorter than what the interrupted run had produced.
+func genC12Recovery(cfg Config, ws *WorldSet, wi, t int) C12Case {
+	world := ws.Worlds[wi]
+	r := sim.Derive(cfg.Seed, "C12", "recovery", wi, t)
+	iv := SetupInv(world)
+	kind := c12CrashKinds[t%len(c12CrashKinds)]
+	L := len(ws.Canon[wi].Out)
+	k := L / 2
+	var steps []Step
+	setup := "{W}/" + world.Setup
+	shrink := (t/len(c12CrashKinds))%2 == 1 && len(world.Variants) > 0
+	if shrink {
+		// variant 1 adds a method: its result is longer
+		steps = append(steps, Step{Op: "edit", Path: setup, Data: []byte(world.Variants[0]), Note: "variant 1 (longer)"})
+		if (t/(2*len(c12CrashKinds)))%2 == 1 {
+			steps = append(steps, Step{Op: "run", Inv: &iv, Bin: "plain"})
+		}
+	}
+	ivc := iv
+	steps = append(steps, crashStep(r, &ivc, kind, k, "as-written"))
+	if shrink {
+		steps = append(steps, Step{Op: "edit", Path: setup, Data: []byte(world.Files[world.Setup]), Note: "variant 0 (shorter)"})
+	}
+	iv2 := iv
+	steps = append(steps, Step{Op: "run", Inv: &iv2, Bin: "plain"})
+	return C12Case{World: world, Steps: steps, Mode: "recovery"}
 }
 
 // genC12Enum: every truncation point (and zero-filled tail) of the canonical output.
@@ -543,7 +597,7 @@ func runC12(cfg Config, args []string) int {
 		return ReplayCase("C12", args[1], func(c C12Case) CaseResult { return execC12(env, c) })
 	}
 	nFix, nSyn := cfg.N(3, 16), cfg.N(5, 44)
-	worlds, err := BuildWorlds(cfg, "C12", nFix, nSyn, 20, false, 3)
+	worlds, err := BuildWorlds(cfg, "C12", nFix, nSyn, 20, false, 4)
 	if err != nil {
 		rep0.InfraErr = err
 		return Finish(rep0)
@@ -587,21 +641,38 @@ func runC12(cfg Config, args []string) int {
 			}
 		}
 	}
-	b := &Batch[C12Case]{Property: "C12", Level: "fault_enumeration", Cfg: cfg, Env: env, N: nHist + len(enum),
+	// crash-recovery templates for the first accepted worlds that have variants
+	type recItem struct{ wi, t int }
+	var rec []recItem
+	recWorlds := cfg.N(2, 12)
+	cnt = 0
+	for wi := range worlds {
+		if !canon[wi].Accepted || len(worlds[wi].Variants) == 0 || cnt >= recWorlds {
+			continue
+		}
+		cnt++
+		for t := 0; t < 4*len(c12CrashKinds); t++ {
+			rec = append(rec, recItem{wi, t})
+		}
+	}
+	b := &Batch[C12Case]{Property: "C12", Level: "fault_enumeration", Cfg: cfg, Env: env, N: nHist + len(enum) + len(rec),
 		Gen: func(i int) C12Case {
 			if i < len(enum) {
 				return genC12Enum(ws, enum[i].wi, enum[i].k, enum[i].zero)
 			}
-			return genC12(cfg, ws, i-len(enum))
+			if i < len(enum)+len(rec) {
+				return genC12Recovery(cfg, ws, rec[i-len(enum)].wi, rec[i-len(enum)].t)
+			}
+			return genC12(cfg, ws, i-len(enum)-len(rec))
 		},
 		Exec:   func(c C12Case) CaseResult { return execC12(env, c) },
 		Shrink: shrinkC12,
 		Rule: "histories of 3-8 seeded steps (run / edit setup file / run killed by SIGKILL inside its final write at byte k with a durability model / truncate / zero-filled tail / broken Go of the same package / write failing after k bytes) in fixture and synthetic worlds, " +
 			"every fault-free run compared with a twin run of the same binary on the same sources and flags in a pristine world with nothing at the output path; plus enumeration of truncation points k of the canonical output " +
-			"(thorough: every k and every zero-filled tail for up to 10 accepted worlds; quick: k<=80 for two worlds). distinct_nontrivial counts distinct (world, residue kind, where the residue ends, flag set, twin status) tuples at compared runs.",
+			"(thorough: every k and every zero-filled tail for up to 10 accepted worlds; quick: k<=80 for two worlds); plus crash-recovery templates for every crash kind (before/after the open, mid-write, before the close, before/after a rename onto the output): [crash, run] and [edit to a longer setup, (run,) crash, edit back, run]. distinct_nontrivial counts distinct (world, residue kind, where the residue ends, flag set, twin status) tuples at compared runs.",
 		Assume: []string{"only the residue categories the property names are generated: older output, truncation at any byte (also with zero-filled tail / block-aligned cut), syntactically broken Go of the same package",
 			"stderr is not compared (not in the statement)"},
-		Extra:    map[string]any{"components_real": componentsReal, "components_simulated": componentsSim, "seam": env.Seam, "enumerated_truncation_cases": len(enum), "history_cases": nHist, "simulated_time": "not applicable: convergen reads no clock"},
+		Extra:    map[string]any{"components_real": componentsReal, "components_simulated": componentsSim, "seam": env.Seam, "enumerated_truncation_cases": len(enum), "crash_recovery_template_cases": len(rec), "history_cases": nHist, "simulated_time": "not applicable: convergen reads no clock"},
 		Required: []string{"n:compared_runs_with_something_at_output", "n:crashes_landed_in_write"},
 	}
 	rep := RunBatch(b, start)
